@@ -646,13 +646,35 @@ func (cc *checkCtx) checkProperty(prop string, seed int, known []KnownFinding, b
 				continue
 			}
 		}
+		// `final` is a syntactic scan for stores outside the allocating function. When the
+		// contract of a function of the same package has lost its target, code has moved
+		// between functions (a goroutine body became a method): where the store sits now says
+		// nothing until the contract file has followed
+		if rec.o.Class == "final" && strings.HasPrefix(rec.o.Name, "type:") {
+			pkgShort := strings.TrimPrefix(rec.o.Name, "type:")
+			if i := strings.Index(pkgShort, "."); i >= 0 {
+				pkgShort = pkgShort[:i]
+			}
+			var lost *MissingTarget
+			for _, mt := range p.MissingTargets {
+				if mt.Pkg == pkgShort || strings.HasSuffix(mt.Pkg, "/"+pkgShort) {
+					lost = mt
+					break
+				}
+			}
+			if lost != nil {
+				undecided++
+				cc.printf("UNDECIDED property=%s obligation=%s (code has moved between functions of this package: the contract of %s at %s:%d has lost its target; the scan for stores outside the allocating function has to wait for the contract file)\n", prop, rec.o.Name, lost.Target, lost.File, lost.Line)
+				continue
+			}
+		}
 		// a clause of this unit's contract could not be evaluated (it names a variable, a
 		// function or a call that the code no longer has): the contract is out of step with
 		// the function, and what fails besides is no refutation
 		if rec.u != nil {
 			bad := ""
 			for _, e := range rec.u.errs {
-				if strings.Contains(e, "zz_contracts_verif.go:") {
+				if strings.Contains(e, "zz_contracts_verif.go:") && (strings.Contains(e, "unsupported object") || strings.Contains(e, "no captured variable") || strings.Contains(e, "unknown function") || strings.Contains(e, "unknown identifier") || strings.Contains(e, "undefined") || strings.Contains(e, "not an addressable expression")) {
 					bad = e
 					break
 				}
